@@ -100,18 +100,70 @@ type scriptStream struct {
 	id     int
 	ctx    context.Context
 	cancel context.CancelFunc
-	in     *fifo[*signaling_rpc.SessionResponse]
+	in     *fifo[[]byte] // marshalled SessionResponse messages, as on the wire
 
 	mu     sync.Mutex
 	reqs   []*signaling_rpc.SessionRequest
 	closed bool
-	taken  int // responses handed to the client by Recv
+	taken  int           // responses handed to the client by Recv
+	hold   bool          // Send blocks (after recording the request) while set: relay back pressure
+	holdCh chan struct{} // closed when hold is released
 }
 
-func (s *scriptStream) Context() context.Context     { return s.ctx }
-func (s *scriptStream) MsgSend(m srpc.Message) error { return errors.New("verif: MsgSend unused") }
-func (s *scriptStream) MsgRecv(m srpc.Message) error { return errors.New("verif: MsgRecv unused") }
-func (s *scriptStream) CloseSend() error             { return nil }
+// pushResp puts a response on the wire.
+func (s *scriptStream) pushResp(r *signaling_rpc.SessionResponse) {
+	b, err := r.MarshalVT()
+	if err != nil {
+		panic(err)
+	}
+	s.in.push(b)
+}
+
+func (s *scriptStream) setHold(h bool) {
+	s.mu.Lock()
+	defer s.mu.Unlock()
+	if h == s.hold {
+		return
+	}
+	s.hold = h
+	if h {
+		s.holdCh = make(chan struct{})
+	} else {
+		close(s.holdCh)
+	}
+}
+
+// recvBytes takes the next wire message.
+func (s *scriptStream) recvBytes() ([]byte, error) {
+	b, err := s.in.pop(s.ctx)
+	if err != nil {
+		return nil, err
+	}
+	s.mu.Lock()
+	s.taken++
+	s.mu.Unlock()
+	return b, nil
+}
+
+func (s *scriptStream) Context() context.Context { return s.ctx }
+func (s *scriptStream) MsgSend(m srpc.Message) error {
+	r, ok := m.(*signaling_rpc.SessionRequest)
+	if !ok {
+		return errors.New("verif: unexpected message type")
+	}
+	return s.Send(r)
+}
+
+// MsgRecv decodes the next wire message INTO m, like srpc.MsgStream.MsgRecv:
+// UnmarshalVT without a reset (merge semantics).
+func (s *scriptStream) MsgRecv(m srpc.Message) error {
+	b, err := s.recvBytes()
+	if err != nil {
+		return err
+	}
+	return m.UnmarshalVT(b)
+}
+func (s *scriptStream) CloseSend() error { return nil }
 func (s *scriptStream) Close() error {
 	s.mu.Lock()
 	s.closed = true
@@ -122,29 +174,47 @@ func (s *scriptStream) Close() error {
 }
 
 func (s *scriptStream) Send(r *signaling_rpc.SessionRequest) error {
+	b, err := r.MarshalVT()
+	if err != nil {
+		return err
+	}
+	c := &signaling_rpc.SessionRequest{}
+	if err := c.UnmarshalVT(b); err != nil {
+		return err
+	}
 	s.mu.Lock()
-	defer s.mu.Unlock()
 	if s.closed {
+		s.mu.Unlock()
 		return io.ErrClosedPipe
 	}
-	s.reqs = append(s.reqs, r.CloneVT())
-	return nil
+	s.reqs = append(s.reqs, c)
+	s.mu.Unlock()
+	// back pressure: the write does not return while the relay holds the stream
+	for {
+		s.mu.Lock()
+		if !s.hold {
+			s.mu.Unlock()
+			return nil
+		}
+		ch := s.holdCh
+		s.mu.Unlock()
+		select {
+		case <-s.ctx.Done():
+			return context.Canceled
+		case <-ch:
+		}
+	}
 }
 
 func (s *scriptStream) Recv() (*signaling_rpc.SessionResponse, error) {
-	r, err := s.in.pop(s.ctx)
-	if err != nil {
+	m := &signaling_rpc.SessionResponse{}
+	if err := s.MsgRecv(m); err != nil {
 		return nil, err
 	}
-	s.mu.Lock()
-	s.taken++
-	s.mu.Unlock()
-	return r, nil
+	return m, nil
 }
 
-func (s *scriptStream) RecvTo(m *signaling_rpc.SessionResponse) error {
-	return errors.New("verif: RecvTo unused")
-}
+func (s *scriptStream) RecvTo(m *signaling_rpc.SessionResponse) error { return s.MsgRecv(m) }
 
 func (s *scriptStream) isClosed() bool {
 	s.mu.Lock()
@@ -180,7 +250,7 @@ func (c *scriptClient) Session(ctx context.Context) (signaling_rpc.SRPCSignaling
 	c.mu.Lock()
 	defer c.mu.Unlock()
 	sctx, cancel := context.WithCancel(ctx)
-	s := &scriptStream{id: len(c.streams), ctx: sctx, cancel: cancel, in: newFifo[*signaling_rpc.SessionResponse]()}
+	s := &scriptStream{id: len(c.streams), ctx: sctx, cancel: cancel, in: newFifo[[]byte]()}
 	c.streams = append(c.streams, s)
 	return s, nil
 }
@@ -234,8 +304,8 @@ type relayConn struct {
 	id     int
 	ctx    context.Context
 	cancel context.CancelFunc
-	c2r    *fifo[*signaling_rpc.SessionRequest]
-	r2c    *fifo[*signaling_rpc.SessionResponse]
+	c2r    *fifo[[]byte] // marshalled SessionRequest
+	r2c    *fifo[[]byte] // marshalled SessionResponse
 
 	mu       sync.Mutex
 	holdResp bool          // relay-side Send blocks while set (back pressure)
@@ -249,11 +319,23 @@ type relayConn struct {
 // client side
 type relayCliStream struct{ c *relayConn }
 
-func (s relayCliStream) Context() context.Context     { return s.c.ctx }
-func (s relayCliStream) MsgSend(m srpc.Message) error { return errors.New("verif: unused") }
-func (s relayCliStream) MsgRecv(m srpc.Message) error { return errors.New("verif: unused") }
-func (s relayCliStream) CloseSend() error             { return nil }
-func (s relayCliStream) Close() error                 { s.c.failConn(io.EOF); return nil }
+func (s relayCliStream) Context() context.Context { return s.c.ctx }
+func (s relayCliStream) MsgSend(m srpc.Message) error {
+	r, ok := m.(*signaling_rpc.SessionRequest)
+	if !ok {
+		return errors.New("verif: unexpected message type")
+	}
+	return s.Send(r)
+}
+func (s relayCliStream) MsgRecv(m srpc.Message) error {
+	b, err := s.c.r2c.pop(s.c.ctx)
+	if err != nil {
+		return err
+	}
+	return m.UnmarshalVT(b)
+}
+func (s relayCliStream) CloseSend() error { return nil }
+func (s relayCliStream) Close() error     { s.c.failConn(io.EOF); return nil }
 func (s relayCliStream) Send(r *signaling_rpc.SessionRequest) error {
 	c := s.c
 	r = r.CloneVT()
@@ -263,24 +345,44 @@ func (s relayCliStream) Send(r *signaling_rpc.SessionRequest) error {
 	if f := c.owner.dropReq; f != nil && f(r) {
 		return nil
 	}
-	if !c.c2r.push(r) {
+	b, err := r.MarshalVT()
+	if err != nil {
+		return err
+	}
+	if !c.c2r.push(b) {
 		return io.ErrClosedPipe
 	}
 	return nil
 }
-func (s relayCliStream) Recv() (*signaling_rpc.SessionResponse, error) { return s.c.r2c.pop(s.c.ctx) }
-func (s relayCliStream) RecvTo(m *signaling_rpc.SessionResponse) error {
-	return errors.New("verif: unused")
+func (s relayCliStream) Recv() (*signaling_rpc.SessionResponse, error) {
+	m := &signaling_rpc.SessionResponse{}
+	if err := s.MsgRecv(m); err != nil {
+		return nil, err
+	}
+	return m, nil
 }
+func (s relayCliStream) RecvTo(m *signaling_rpc.SessionResponse) error { return s.MsgRecv(m) }
 
 // relay side
 type relaySrvStream struct{ c *relayConn }
 
-func (s relaySrvStream) Context() context.Context     { return s.c.ctx }
-func (s relaySrvStream) MsgSend(m srpc.Message) error { return errors.New("verif: unused") }
-func (s relaySrvStream) MsgRecv(m srpc.Message) error { return errors.New("verif: unused") }
-func (s relaySrvStream) CloseSend() error             { return nil }
-func (s relaySrvStream) Close() error                 { s.c.failConn(io.EOF); return nil }
+func (s relaySrvStream) Context() context.Context { return s.c.ctx }
+func (s relaySrvStream) MsgSend(m srpc.Message) error {
+	r, ok := m.(*signaling_rpc.SessionResponse)
+	if !ok {
+		return errors.New("verif: unexpected message type")
+	}
+	return s.Send(r)
+}
+func (s relaySrvStream) MsgRecv(m srpc.Message) error {
+	b, err := s.c.c2r.pop(s.c.ctx)
+	if err != nil {
+		return err
+	}
+	return m.UnmarshalVT(b)
+}
+func (s relaySrvStream) CloseSend() error { return nil }
+func (s relaySrvStream) Close() error     { s.c.failConn(io.EOF); return nil }
 func (s relaySrvStream) Send(r *signaling_rpc.SessionResponse) error {
 	c := s.c
 	for {
@@ -304,16 +406,24 @@ func (s relaySrvStream) Send(r *signaling_rpc.SessionResponse) error {
 	if f := c.owner.dropResp; f != nil && f(r) {
 		return nil
 	}
-	if !c.r2c.push(r) {
+	b, err := r.MarshalVT()
+	if err != nil {
+		return err
+	}
+	if !c.r2c.push(b) {
 		return io.ErrClosedPipe
 	}
 	return nil
 }
 func (s relaySrvStream) SendAndClose(r *signaling_rpc.SessionResponse) error { return s.Send(r) }
-func (s relaySrvStream) Recv() (*signaling_rpc.SessionRequest, error)        { return s.c.c2r.pop(s.c.ctx) }
-func (s relaySrvStream) RecvTo(m *signaling_rpc.SessionRequest) error {
-	return errors.New("verif: unused")
+func (s relaySrvStream) Recv() (*signaling_rpc.SessionRequest, error) {
+	m := &signaling_rpc.SessionRequest{}
+	if err := s.MsgRecv(m); err != nil {
+		return nil, err
+	}
+	return m, nil
 }
+func (s relaySrvStream) RecvTo(m *signaling_rpc.SessionRequest) error { return s.MsgRecv(m) }
 
 // failConn breaks the connection in both directions.
 func (c *relayConn) failConn(err error) {
@@ -376,7 +486,7 @@ func (c *relayClient) Session(ctx context.Context) (signaling_rpc.SRPCSignaling_
 	}
 	cctx, cancel := context.WithCancel(context.WithValue(ctx, pidKey{}, c.pid))
 	conn := &relayConn{owner: c, id: len(c.conns), ctx: cctx, cancel: cancel,
-		c2r: newFifo[*signaling_rpc.SessionRequest](), r2c: newFifo[*signaling_rpc.SessionResponse]()}
+		c2r: newFifo[[]byte](), r2c: newFifo[[]byte]()}
 	c.conns = append(c.conns, conn)
 	c.mu.Unlock()
 	go func() {
